@@ -2,13 +2,15 @@ import Adlt.Lc.Pub
 import Adlt.Lc.Spec
 import Adlt.Lc.Listing
 import Adlt.Lc.Table
+import Adlt.Lc.Counts
 /-! # C07 — final lifecycle table consistent with delivered messages; the listing
 
 Listing part: theorems about the model of `get_sorted_lifecycles_as_vec` for every table.
 Counts part: the published table at the end is the live table (`C07_listed_once`, `C07_listed_are_live`,
-`C07_live_are_listed`) and its counts add up (`C07_counts_sum`); the per-id clauses of the executable statement `Spec.C07`
-(each count = number of delivered messages with that id; every delivered id listed) are evaluated on the implementation's
-output on every run. -/
+`C07_live_are_listed`), its counts add up (`C07_counts_sum`), and per lifecycle (`C07_count_exact`, `C07_referenced`,
+`C07_covers`, `C07_ecu`): each listed count is the number of delivered messages that carry the id, at least one; every delivered
+id is listed, with the ECU of the message. Together: the executable statement `Spec.C07` holds of the model's observation for
+every stream (`C07_spec`); the same `Spec.C07` is evaluated on the implementation's output on every run. -/
 namespace Props
 open Lcm
 
@@ -125,5 +127,77 @@ theorem C07_live_are_listed (ms : List Msg) (lc : Lc) (hl : Live (run ms).ecuMap
 theorem C07_counts_sum (ms : List Msg) : Spec.C07sum (observe (run ms)) = true := by
   simp only [Spec.C07sum, observe, List.map_map, List.length_map, List.length_reverse, beq_iff_eq]
   exact table_counts_sum ms
+
+/-! ## per lifecycle -/
+
+theorem countLc_eq (s : St) (id : Nat) : Spec.countLc (observe s) id = cntI id s.outIds := by
+  simp only [Spec.countLc, observe, cntI, St.outIds, List.filter_map, List.length_map, List.filter_reverse, List.length_reverse]
+  rfl
+
+/-- **exact counts**: the count listed for a lifecycle is the number of delivered messages carrying its id - and at least one -/
+theorem C07_count_exact (ms : List Msg) :
+    ∀ t ∈ (observe (run ms)).tbl, t.n = Spec.countLc (observe (run ms)) t.id ∧ 1 ≤ t.n := by
+  intro t ht
+  obtain ⟨lc, hl, hid, _, hn, _⟩ := C07_listed_are_live ms t ht
+  have := (run_counts ms).1 lc hl
+  rw [countLc_eq, ← hid, hn]
+  exact this
+
+/-- every delivered lifecycle id is listed, with the ECU of the message -/
+theorem C07_delivered_listed (ms : List Msg) :
+    ∀ x ∈ (observe (run ms)).out, ∃ t ∈ (observe (run ms)).tbl, t.id = x.lc ∧ t.ecu = x.m.ecu := by
+  intro x hx
+  simp only [observe, List.mem_map, List.mem_reverse] at hx
+  obtain ⟨o, ho, rfl⟩ := hx
+  have hin : (o.m.lc, o.m.ecu) ∈ (run ms).outIds := by
+    unfold St.outIds
+    exact List.mem_map.mpr ⟨o, ho, rfl⟩
+  obtain ⟨lc, hl, h1, h2⟩ := (run_counts ms).2 _ hin
+  obtain ⟨t, ht, t1, t2, _⟩ := C07_live_are_listed ms lc hl
+  exact ⟨t, ht, t1.trans h1, t2.trans h2⟩
+
+theorem C07_referenced (ms : List Msg) : Spec.C07referenced (observe (run ms)) = true := by
+  simp only [Spec.C07referenced, List.all_eq_true, bne_iff_ne, ne_eq]
+  intro t ht
+  have := C07_count_exact ms t ht
+  omega
+
+theorem C07_exact (ms : List Msg) : Spec.C07exact (observe (run ms)) = true := by
+  simp only [Spec.C07exact, List.all_eq_true, Bool.or_eq_true, beq_iff_eq]
+  intro t ht
+  exact .inr (C07_count_exact ms t ht).1
+
+theorem C07_covers (ms : List Msg) : Spec.C07covers (observe (run ms)) = true := by
+  simp only [Spec.C07covers, List.all_eq_true, List.any_eq_true, beq_iff_eq]
+  intro x hx
+  obtain ⟨t, ht, h1, _⟩ := C07_delivered_listed ms x hx
+  exact ⟨t, ht, h1⟩
+
+theorem C07_ecu (ms : List Msg) : Spec.C07ecu (observe (run ms)) = true := by
+  simp only [Spec.C07ecu, List.all_eq_true, Bool.or_eq_true, bne_iff_ne, ne_eq, beq_iff_eq]
+  intro x hx t ht
+  by_cases hid : t.id = x.lc
+  · right
+    obtain ⟨t', ht', h1, h2⟩ := C07_delivered_listed ms x hx
+    -- ids are listed once: `t` is `t'`
+    obtain ⟨lc, hl, i1, e1, _⟩ := C07_listed_are_live ms t ht
+    obtain ⟨lc', hl', i2, e2, _⟩ := C07_listed_are_live ms t' ht'
+    obtain ⟨hi, _⟩ := run_final ms
+    have hem : (run ms).ecuMap = (ms.foldl St.step {}).ecuMap := finish_ecuMap _
+    have := hi.map.uniq lc lc' (by rw [← hem]; exact hl) (by rw [← hem]; exact hl') (by rw [i1, i2, hid, h1])
+    rw [e1, this, ← e2, h2]
+  · exact .inl hid
+
+/-- **C07, counts part, for every stream**: the executable statement that the driver evaluates on the implementation's output
+    holds of the model's observation -/
+theorem C07_spec (ms : List Msg) : Spec.C07 (observe (run ms)) = true := by
+  simp only [Spec.C07, Bool.and_eq_true]
+  exact ⟨⟨⟨⟨⟨C07_listed_once ms, C07_referenced ms⟩, C07_exact ms⟩, C07_covers ms⟩, C07_ecu ms⟩, C07_counts_sum ms⟩
+
+/-- non-vacuity: a stream of two ECUs, evaluated -/
+example : Spec.C07 (observe (run [
+    { index := 0, recv := 1000000, ecu := 1, tsDms := 10, hasTs := true, ctrlReq := false, lc := 0 },
+    { index := 1, recv := 1100000, ecu := 2, tsDms := 20, hasTs := true, ctrlReq := false, lc := 0 },
+    { index := 2, recv := 90000000, ecu := 1, tsDms := 30, hasTs := true, ctrlReq := false, lc := 0 }])) = true := by decide
 
 end Props
